@@ -1334,6 +1334,10 @@ impl Engine for Net {
                         let _ = tx.send(r.is_ok());
                     });
                     let verdict = rx.recv_timeout(std::time::Duration::from_secs(20));
+                    // "no model code runs afterwards": what is logged from now on — the drop has returned — counts; a handler
+                    // that another worker was still running while the drop was joining the threads (after a panic, a
+                    // NoRecipient failure or a time-out the run returns as soon as the failure is known) ran *before* that
+                    let handled_before = if verdict.is_ok() { sh.log.lock().unwrap().len() } else { handled_before };
                     let returned = match verdict {
                         Ok(ok) => {
                             let _ = h.join();
@@ -1372,7 +1376,7 @@ impl Engine for Net {
                     drop(_orphans);
                     drop(sinks);
                     let leaked = sh.live.load(Ordering::SeqCst);
-                    std::thread::sleep(std::time::Duration::from_millis(2));
+                    std::thread::sleep(std::time::Duration::from_millis(5));
                     let ran_after = sh.log.lock().unwrap().len() != handled_before;
                     let excluded = timeout_seen;
                     if excluded && returned == "hung" {
@@ -1951,6 +1955,13 @@ fn gen_case(rng: &mut Rng, _idx: usize, tier: Tier, focus: &str) -> Case {
         if !silent.is_empty() {
             fault_model = *rng.pick(&silent);
         }
+    }
+    if fault_kind == 1 && fault_model % 2 == 1 && (with_orphan || stall != 0) {
+        // an odd model panics at the *end* of its handler, after its sends; with a mailbox that nobody empties (an orphan of
+        // small capacity) or a stall scenario in the bench, one of those sends may wait for ever and the panic never
+        // happens — M-NET raises the fault when the handler starts and would disagree.  In such benches the panicking model
+        // is an even one (panic on entry).
+        fault_model -= 1;
     }
     let dead_idx = total;
     let mut fault_lines: Vec<String> = Vec::new();
